@@ -1183,3 +1183,125 @@ V('c12-sent-answers-stay-in-the-other-queue', 'C12', 'C12.WIRING', MQF,
 V('c12-twin-both-queues-purged-by-name', 'C12', 'C12.WIRING', MQF,
   "            self._remove_answers_from_queue(answers)\n            for queue in (zc.out_queue, zc.out_delay_queue):\n                if queue is not self:\n                    queue._remove_answers_from_queue(answers)\n",
   "            zc.out_queue._remove_answers_from_queue(answers)\n            zc.out_delay_queue._remove_answers_from_queue(answers)\n", expect='silent')
+
+# ---------------------------------------------------------------- from the mutation sweep (10.8): one respelled node each, in places the seeded rounds had not reached
+V('c18-new-address-not-stored', 'C18', 'C18.MATCH', '_services/info.py',
+  '                if ip_addr not in ipv4_addresses:\n                    ipv4_addresses.insert(0, ip_addr)\n',
+  '                if ip_addr not in ipv4_addresses:\n                    pass\n', names=['_process_record_threadsafe'])
+V('c18-address-family-test-inverted', 'C18', 'C18.MATCH', '_services/info.py',
+  '            if ip_addr.version == 4:\n',
+  '            if (ip_addr.version != 4):\n', names=['_process_record_threadsafe'])
+V('c03-address-owner-is-the-instance', 'C03', 'C03.TTLCLASS', '_services/info.py',
+  '        name = self.server or self._name\n',
+  '        name = (self._name)\n', names=['_dns_addresses'])
+V('c03-address-type-by-family-inverted', 'C03', 'C03.TTLCLASS', '_services/info.py',
+  '                _TYPE_AAAA if ip_addr.version == 6 else _TYPE_A,\n',
+  '                _TYPE_AAAA if (ip_addr.version != 6) else _TYPE_A,\n', names=['_dns_addresses'])
+V('c03-present-type-not-struck-off', 'C03', 'C03.ADDRNSEC', '_services/info.py',
+  '            missing_types.discard(dns_address.type)\n',
+  '            pass\n', names=['_get_address_and_nsec_records'])
+V('c08-nsec-left-out-of-the-host-set', 'C08', 'C08.GOODBYE', '_services/info.py',
+  '            records.add(self._dns_nsec(list(missing_types), override_ttl))\n',
+  '            pass\n', names=['_get_address_and_nsec_records'])
+V('c13-lookup-question-without-qu-bit', 'C13', 'C13.HISTORY', '_services/info.py',
+  '            question.unicast = True\n',
+  '            pass\n', names=['_add_question_with_known_answers'])
+V('c13-lookup-known-answers-not-listed', 'C13', 'C13.HISTORY', '_services/info.py',
+  '            out.add_answer_at_time(answer, now)\n',
+  '            pass\n', names=['_add_question_with_known_answers'])
+V('c18-cached-srv-not-processed', 'C18', 'C18.BOUND', '_services/info.py',
+  '            self._process_record_threadsafe(zc, cached_srv_record, now)\n',
+  '            pass\n', names=['_load_from_cache'])
+V('c09-rename-keeps-the-old-key', 'C09', 'C09.ORDER', '_services/info.py',
+  '            self._get_address_and_nsec_records_cache = None\n        self._name = name\n        self.key = name.lower()\n',
+  '            self._get_address_and_nsec_records_cache = None\n        self._name = name\n        pass\n', names=['name'])
+V('c09-rename-moves-only-unset-host', 'C09', 'C09.ORDER', '_services/info.py',
+  '        if self.server_key is not None and self.server_key == self.key:\n',
+  '        if (self.server_key is None) and self.server_key == self.key:\n', names=['name'])
+V('c13-delay-lowered-after-qm-round', 'C13', 'C13.CONST', '_services/info.py',
+  '                    if this_question_type is QM_QUESTION and delay < _DUPLICATE_QUESTION_INTERVAL:\n',
+  '                    if (this_question_type is QM_QUESTION):\n', names=['async_request'])
+V('c13-question-not-put-into-existing-bucket', 'C13', 'C13.KNOWN', '_services/browser.py',
+  '                query_bucket.add(max_compressed_size, question, answers)\n',
+  '                pass\n', names=['_group_ptr_queries_with_known_answers'])
+V('c13-bucket-without-the-question', 'C13', 'C13.KNOWN', '_services/browser.py',
+  '        self.out.add_question(question)\n',
+  '        pass\n', names=['add'])
+V('c13-browser-question-without-qu-bit', 'C13', 'C13.QUFIRST', '_services/browser.py',
+  '        question.unicast = qu_question\n',
+  '        pass\n', names=['generate_service_query'])
+V('c10-closed-gate-falls-through', 'C10', 'C10.REARM', '_services/browser.py',
+  '    def _process_startup_queries(self) -> None:\n        if TYPE_CHECKING:\n            assert self._loop is not None\n        # This is a safety to ensure we stop sending queries if Zeroconf instance\n        # is stopped without the browser being cancelled\n        if self._zc.done:\n            return\n',
+  '    def _process_startup_queries(self) -> None:\n        if TYPE_CHECKING:\n            assert self._loop is not None\n        # This is a safety to ensure we stop sending queries if Zeroconf instance\n        # is stopped without the browser being cancelled\n        if self._zc.done:\n            pass\n', names=['_process_startup_queries'])
+V('c10-generated-queries-not-sent', 'C10', 'C10.REARM', '_services/browser.py',
+  '                self._zc.async_send(out, self._addr, self._port)\n',
+  '                pass\n', names=['async_send_ready_queries'])
+V('c10-superseded-entry-not-flagged', 'C10', 'C10.PAIR', '_services/browser.py',
+  '            current.cancelled = True\n',
+  '            current.cancelled = False\n', names=['reschedule_ptr_first_refresh'])
+V('c10-cancel-flags-nothing', 'C10', 'C10.PAIR', '_services/browser.py',
+  '        if scheduled:\n',
+  '        if (not scheduled):\n', names=['cancel_ptr_refresh'])
+V('c01-zero-label-does-not-end-name', 'C01', 'C01.PRIMS', '_protocol/incoming.py',
+  '                return off + DNS_COMPRESSION_HEADER_LEN\n',
+  '                pass\n', names=['_decode_labels_at_offset'])
+V('c01-label-slice-backwards', 'C01', 'C01.PRIMS', '_protocol/incoming.py',
+  "                labels.append(self.data[label_idx : label_idx + length].decode('utf-8', 'replace'))\n",
+  "                labels.append(self.data[label_idx : (label_idx - length)].decode('utf-8', 'replace'))\n", names=['_decode_labels_at_offset'])
+V('c02-pointer-labels-not-appended', 'C02', 'C02.FAITHFUL', '_protocol/incoming.py',
+  '            labels.extend(linked_labels)\n',
+  '            pass\n', names=['_decode_labels_at_offset'])
+V('c01-label-walk-falls-off-the-end', 'C01', 'C01.PRIMS', '_protocol/incoming.py',
+  '        raise IncomingDecodeError(f"Corrupt packet received while decoding name from {self.source}")\n',
+  '        pass\n', names=['_decode_labels_at_offset'])
+V('c18-api-returns-description-on-failure', 'C18', 'C18.BOUND', '_core.py',
+  '        if await info.async_request(self, timeout, question_type):\n',
+  '        if (not await info.async_request(self, timeout, question_type)):\n', names=['async_get_service_info'])
+V('c08-blocking-unregister-all-does-nothing', 'C08', 'C08.COMPLETE', '_core.py',
+  '        run_coro_with_timeout(\n            self.async_unregister_all_services(), self.loop, _UNREGISTER_TIME * _REGISTER_BROADCASTS\n        )\n',
+  '        pass\n', names=['unregister_all_services'])
+V('c03-update-skips-the-registry', 'C03', 'C03.INDEX', '_core.py',
+  '        self.registry.async_update(info)\n',
+  '        pass\n', names=['async_update_service'])
+V('c03-answers-not-written', 'C03', 'C03.ADDL', '_handlers/answers.py',
+  '        out.add_answer_at_time(answer, 0)\n',
+  '        pass\n', names=['_add_answers_additionals'])
+V('c12-flush-rearmed-behind-the-loop-clock', 'C12', 'C12.WIRING', '_handlers/multicast_outgoing_queue.py',
+  '            loop.call_at(loop.time() + millis_to_seconds(self.queue[0].send_after - now), self.async_ready)\n',
+  '            loop.call_at((loop.time() - millis_to_seconds(self.queue[0].send_after - now)), self.async_ready)\n', names=['async_ready'])
+V('c12-last-second-test-without-entry', 'C12', 'C12.WINDOW', '_handlers/query_handler.py',
+  '        return bool(maybe_entry is not None and self._now - maybe_entry.created < _ONE_SECOND)\n',
+  '        return bool((maybe_entry is None) and self._now - maybe_entry.created < _ONE_SECOND)\n', names=['_has_mcast_record_in_last_second'])
+V('c11-quarter-ttl-test-without-entry', 'C11', 'C11.FORMAT', '_handlers/query_handler.py',
+  '        return bool(maybe_entry is not None and maybe_entry.is_recent(self._now))\n',
+  '        return bool((maybe_entry is None) and maybe_entry.is_recent(self._now))\n', names=['_has_mcast_within_one_quarter_ttl'])
+V('c01-nsec-window-31-bytes', 'C01', 'C01.NSECBITS', '_dns.py',
+  "        bitmap = bytearray(b'\\0' * 32)\n",
+  "        bitmap = bytearray(b'\\0' * 31)\n", names=['write'])
+V('c01-nsec-bitmap-length-off', 'C01', 'C01.NSECBITS', '_dns.py',
+  '            total_octets = byte + 1\n',
+  '            total_octets = (byte - 1)\n', names=['write'])
+V('c03-unlisted-record-suppressed', 'C03', 'C03.SUPPRESS', '_dns.py',
+  '        if other is None:\n',
+  '        if (other is not None):\n', names=['suppresses'])
+V('c13-unicast-setter-stores-nothing', 'C13', 'C13.QUFIRST', '_dns.py',
+  '        self.unique = value\n',
+  '        pass\n', names=['unicast'])
+V('c18-wait-helper-returns-at-once', 'C18', 'C18.BOUND', '_utils/asyncio.py',
+  '        await future\n',
+  '        pass\n', names=['wait_for_future_set_or_timeout'])
+V('c08-async-unregister-all-wrapper-empty', 'C08', 'C08.COMPLETE', 'asyncio.py',
+  '        await self.zeroconf.async_unregister_all_services()\n',
+  '        pass\n', names=['async_unregister_all_services'])
+V('c17-async-browser-cancel-empty', 'C17', 'C17.LISTENER', 'asyncio.py',
+  '        self._async_cancel()\n',
+  '        pass\n', names=['async_cancel'])
+V('c17-removed-listener-not-forgotten', 'C17', 'C17.LISTENER', 'asyncio.py',
+  '            del self.async_browsers[listener]\n',
+  '            pass\n', names=['async_remove_service_listener'])
+V('c01-write-short-appends-nothing', 'C01', 'C01.PRIMS', '_protocol/outgoing.py',
+  '        self.data.append(self._get_short(value))\n',
+  '        pass\n', names=['write_short'])
+V('c01-question-not-appended', 'C01', 'C01.PRIMS', '_protocol/outgoing.py',
+  '        self.questions.append(record)\n',
+  '        pass\n', names=['add_question'])
